@@ -770,10 +770,77 @@ pub fn run_c13_strings(tier: &str, sink: &Sink, u: &Universe) -> BOut {
             });
         }
     });
+    // wide family: ranges whose printed form is far beyond 256 bytes, from parse and from chains of
+    // difference / intersect (depth up to 40), on a dedicated universe
+    let wide = wide_family_c13(sink);
     let distinct: u64 = seen.iter().map(|m| m.lock().unwrap().len() as u64).sum();
     let mut m = snap(&c);
-    m.insert("distinct_range_values".into(), distinct);
+    m.insert("distinct_range_values".into(), distinct + wide);
+    m.insert("wide_family_values".into(), wide);
     BOut { counters: m, samples: vec![json!({"range_text": "^0 ||x"})], n }
+}
+
+pub fn wide_universe() -> Universe {
+    let mut bvs = vec![];
+    for i in 0..=81u64 {
+        for t in ["", "a", "0.a"] {
+            bvs.push(ver(i, 0, 0, t));
+            bvs.push(ver(i, 1, 0, t));
+            bvs.push(ver(i, 5, 0, t));
+            bvs.push(ver(1, 0, i, t));
+            bvs.push(ver(i, 0, 1, t));
+        }
+    }
+    for n in [60usize, 120, 200, 240] {
+        bvs.push(ver(1, 0, 0, &"a".repeat(n)));
+        bvs.push(ver(1, 0, 0, &"b".repeat(n)));
+        bvs.push(ver(2, 0, 0, &"a".repeat(n)));
+    }
+    let mut vs = critical_points(&bvs);
+    vs.push(ver(99, 0, 0, ""));
+    Universe::new(vs)
+}
+
+/// C13 on wide ranges. Returns the number of values checked.
+pub fn wide_family_c13(sink: &Sink) -> u64 {
+    let u = wide_universe();
+    let mut n = 0u64;
+    let mut check = |r: &Range, parsed: bool, how: &str| {
+        let within = within_bits(&u, &intervals_of(r));
+        let Ok(sat) = real_sat_bits(&u, r) else { return };
+        check_roundtrip(&u, r, &within, &sat, parsed, &mut |clause, w, obs, exp| {
+            sink.report(clause, format!("wide={}|v={}", how, w), json!({"engine":"B","kind":"range-wide","how":how}), obs, exp);
+        });
+    };
+    for t in crate::engine_a::wide_texts() {
+        if let Ok(Ok(r)) = guarded(|| Range::parse(&t)) {
+            n += 1;
+            let how = format!("parse:{}", if t.len() > 60 { format!("{}...({} bytes)", &t[..60], t.len()) } else { t.clone() });
+            check(&r, true, &how);
+        } else {
+            sink.report("reparse", format!("wide=parse:{}...({} bytes)|v=-", &t[..t.len().min(60)], t.len()), json!({"engine":"B","kind":"range-wide","how":"parse"}), "the wide text does not parse".into(), "Ok (no length limit on range texts)".into());
+        }
+    }
+    // chains: punch k exact versions out of one interval, then intersect the result with a multi-alternative range
+    if let (Ok(base), Ok(cut)) = (Range::parse(">=1.0.0 <60.0.0"), Range::parse("1.x || 3.x || 5.x || 7.x || 9.x || 11.x || 13.x || 15.x || 17.x || 19.x || 21.x || 23.x || 25.x || 27.x || 29.x || 31.x")) {
+        let mut cur = base;
+        for i in 2..=40u64 {
+            let Ok(hole) = Range::parse(format!("{}.0.0", i)) else { break };
+            match guarded(|| cur.difference(&hole)) {
+                Ok(Some(next)) => cur = next,
+                _ => break,
+            }
+            n += 1;
+            check(&cur, false, &format!("chain:(>=1.0.0 <60.0.0) minus 2.0.0 .. {}.0.0", i));
+            if i % 8 == 0 {
+                if let Ok(Some(x)) = guarded(|| cur.intersect(&cut)) {
+                    n += 1;
+                    check(&x, false, &format!("chain:((>=1.0.0 <60.0.0) minus 2.0.0 .. {}.0.0) & odd majors", i));
+                }
+            }
+        }
+    }
+    n
 }
 
 // ------------------------------------------------------------------ replay ---
@@ -815,6 +882,9 @@ pub fn replay(prop: &str, case: &Value, sink: &Sink) {
             Ok(Ok(_)) => sink.report("kind-novalid", format!("parser=range|input={:?}|", input), case.clone(), "Ok".into(), "Err(NoValidRanges)".into()),
             Err(_) => {}
         },
+        ("C13", "range-wide") => {
+            let _ = wide_family_c13(sink);
+        }
         ("C13", "range-text") => {
             let tier = case["tier"].as_str().unwrap_or("quick");
             let e = crate::engine_a::EngA::new(tier);
